@@ -169,3 +169,40 @@ Print Assumptions C03_api_source_tie.
 Example C03_api_source_tie_nonvacuous :
   map (fun v => KernelsApi.gen_api_hh_add_value v hh_cap) [1; 2^32 - 1; 2^32 + 2] = [Some 1; Some (2^32 - 1); Some (2^32 - 1)].
 Proof. vm_compute. reflexivity. Qed.
+
+(* ---------------- the correspondence runner and the theorems speak of the same states ----------------
+   The runner (HH.step) applies the model's operations to registers and tabulates the table after each mutating
+   operation (hh_freeze).  For every program, every register it ever holds is, inside the array bounds and in every
+   bookkeeping field, the model state `eval h` of some history h; and the table code it compares with the
+   implementation's arrays, hh[k] and the query answer are those of `eval h`.  So a run that agrees with the
+   implementation is an agreement of `eval` — the object C03/C04/C13 are proved about — not of a look-alike. *)
+From Coq Require Import Uint63.
+From Sketchnu Require HHRunnerProofs.
+Theorem C03_runner_registers_are_model_states : forall width depth max_key_len bucket,
+  (forall r k, (bucket r k < width)%nat) -> forall default_thr (prog : list wop),
+  Forall (fun s => exists h, HHRunnerProofs.teq width depth s (eval width depth max_key_len bucket default_thr h))
+         (fold_left (fun regs o => fst (fst (step width depth max_key_len bucket default_thr regs o))) prog
+                    (init_regs max_key_len)).
+Proof. exact HHRunnerProofs.runner_registers_are_model_states. Qed.
+Print Assumptions C03_runner_registers_are_model_states.
+
+Theorem C03_runner_observes_model_state : forall width depth max_key_len bucket,
+  (forall r k, (bucket r k < width)%nat) -> forall default_thr s h,
+  HHRunnerProofs.teq width depth s (eval width depth max_key_len bucket default_thr h) ->
+  tab_code width depth max_key_len (tab s) = tab_code width depth max_key_len (tab (eval width depth max_key_len bucket default_thr h)) /\
+  (forall k, hh_get depth max_key_len bucket s k = hh_get depth max_key_len bucket (eval width depth max_key_len bucket default_thr h) k) /\
+  (forall k thr, snd (hh_query width depth max_key_len bucket default_thr s k thr)
+                 = snd (hh_query width depth max_key_len bucket default_thr (eval width depth max_key_len bucket default_thr h) k thr)).
+Proof. exact HHRunnerProofs.rep_observation. Qed.
+Print Assumptions C03_runner_observes_model_state.
+
+(* non-vacuity: a three-operation program on a 2x2 sketch; register 0 after it is eval of the evident history *)
+Example C03_runner_nonvacuous :
+  let b := fun (r : nat) (k : key) => ((Z.to_nat (hd 0%Z k) + r) mod 2)%nat in
+  (forall r k, (b r k < 2)%nat) /\
+  let regs := fold_left (fun regs o => fst (fst (step 2 2 2 b (fun n => n / 2) regs o)))
+                        [OAdd 0%uint63 [97%uint63] 5%uint63; OAdd 1%uint63 [98%uint63] 2%uint63; OMerge 0%uint63 1%uint63]
+                        (init_regs 2) in
+  hh_get 2 2 b (nth 0 regs (hh_empty 2)) [97] = 5 /\
+  hh_get 2 2 b (eval 2 2 2 b (fun n => n / 2) (HMerge (HAdd HEmpty [97] 5) (HAdd HEmpty [98] 2))) [97] = 5.
+Proof. split; [intros r k; apply Nat.mod_upper_bound; discriminate|]. vm_compute. split; reflexivity. Qed.
